@@ -29,7 +29,7 @@ class Driver:
         self.live = {}  # slot -> set of images loaded since the tree was put there
         self.prev_open = None
         self.prev_load = None
-        self.w = dict(open=30, load=20, mutate=8, copy=4, drop=3, cli=8, redeliver=5, damage=6, restore=4, delete=4, tear=5, cachedir=3, purge=3, block=2, copyto=3)
+        self.w = dict(open=30, load=20, mutate=8, copy=4, drop=3, close=4, cli=8, redeliver=5, damage=6, restore=4, delete=4, tear=5, cachedir=3, purge=3, block=2, copyto=3)
         self.w.update(profile or {})
 
     # multi-step motifs: the histories that earlier seeded changes needed, issued as a block now and then so that a recorded session
@@ -77,7 +77,7 @@ class Driver:
             return op["slot"] in self.live
         if k == "mutate":
             return op["img"] in self.live.get(op["slot"], ())
-        if k in ("copy", "drop"):
+        if k in ("copy", "drop", "close"):
             return op["slot"] in self.live
         if k == "redeliver":
             return f"{op['loc']}{op['ver']}" != self.cur[op["loc"]]
@@ -149,6 +149,11 @@ class Driver:
         if not self.live:
             return None
         return {"op": "drop", "slot": self.r.choice(sorted(self.live))}
+
+    def _close(self):
+        if not self.live:
+            return None
+        return {"op": "close", "slot": self.r.choice(sorted(self.live))}
 
     def _cli(self):
         r = self.r
@@ -269,7 +274,7 @@ def run_trace(task):
                 ev["outcome"] = obs["outcome"]
             if op["op"] == "copy":
                 ev["typed"] = not ({"types", "unpicklable"} & set(f))
-            if op["op"] in ("open", "cli", "mutate", "copy", "drop", "load"):
+            if op["op"] in ("open", "cli", "mutate", "copy", "drop", "close", "load"):
                 ev.update(prod_changed="product_modified" in f, cache_foreign="cache_unasked" in f)
             if op["op"] in ("open", "cli"):
                 ev["cells"] = {w: {l: (dict(obs["cells"][w][l]) if l in locs else {"a": "absent", "b": "absent"}) for l in ("P", "Q")} for w in ("local", "adjacent")}
